@@ -7,15 +7,6 @@ soundness and (with backtracking) completeness of `dfs`, and the `pick` lemmas.
 namespace SE
 open SE.ListLemmas
 
-/-- no component of the metric name is literally `*` -/
-def NoStarField (fields : Pat) : Prop := ∀ f ∈ fields, f ≠ starB
-
-theorem NoStarField.tail {f : Bytes} {rest : Pat} (h : NoStarField (f :: rest)) : NoStarField rest :=
-  fun x hx => h x (List.mem_cons_of_mem _ hx)
-
-theorem NoStarField.head {f : Bytes} {rest : Pat} (h : NoStarField (f :: rest)) : f ≠ starB :=
-  h f (List.mem_cons_self ..)
-
 /-! ### `globMatches` equations -/
 
 @[simp] theorem globMatches_nil_nil : globMatches [] [] = true := by simp [globMatches]
@@ -44,7 +35,7 @@ def dfsVisit (rs : TRules) (bt : Bool) (rest : List Bytes) (q : Pat) (caps' : Li
 theorem dfs_cons (rs : TRules) (bt : Bool) (p : Pat) (caps : List Bytes) (f : Bytes) (rest : List Bytes) :
     dfs rs bt p caps (f :: rest) =
       if !hasChildren rs p then [] else
-      if okChild rs p f rest.length then
+      if f != starB && okChild rs p f rest.length then
         dfsVisit rs bt rest (p ++ [f]) caps ++
           (if bt && okChild rs p starB rest.length then dfsVisit rs bt rest (p ++ [starB]) (caps ++ [f]) else [])
       else if okChild rs p starB rest.length then dfsVisit rs bt rest (p ++ [starB]) (caps ++ [f])
@@ -112,13 +103,14 @@ theorem result_some_mem {rs : TRules} {q : Pat} {i : Nat} (h : result rs q = som
 /-! ### soundness -/
 
 /-- Every final state reported by `dfs` (with or without backtracking) is the node of a path `p ++ ext`
-    where `ext` matches the remaining fields component-wise, and `f.rule` owns that node.
-    If no field is literally `*`, the captures are those of `ext`. -/
+    where `ext` matches the remaining fields component-wise, and `f.rule` owns that node;
+    the captures are those of `ext` (a field that is literally `*` takes the wildcard transition and
+    is recorded like any other field: repair 0275669). -/
 theorem dfs_sound (rs : TRules) (bt : Bool) :
     ∀ (fields : List Bytes) (p : Pat) (caps : List Bytes) (f : Found),
       f ∈ dfs rs bt p caps fields →
       ∃ ext, globMatches ext fields = true ∧ result rs (p ++ ext) = some f.rule ∧
-        (NoStarField fields → f.caps = caps ++ capturesOf ext fields) := by
+        f.caps = caps ++ capturesOf ext fields := by
   intro fields
   induction fields with
   | nil => intro p caps f h; simp [dfs] at h
@@ -126,7 +118,7 @@ theorem dfs_sound (rs : TRules) (bt : Bool) :
     intro p caps f h
     have hv : ∀ (q : Pat) (caps' : List Bytes), f ∈ dfsVisit rs bt rest q caps' →
         ∃ ext, globMatches ext rest = true ∧ result rs (q ++ ext) = some f.rule ∧
-          (NoStarField rest → f.caps = caps' ++ capturesOf ext rest) := by
+          f.caps = caps' ++ capturesOf ext rest := by
       intro q caps' hf
       cases rest with
       | nil =>
@@ -135,32 +127,31 @@ theorem dfs_sound (rs : TRules) (bt : Bool) :
         · rename_i r hr
           simp only [List.mem_singleton] at hf
           subst hf
-          exact ⟨[], by simp, by simpa using hr, by intro _; simp [capturesOf]⟩
+          exact ⟨[], by simp, by simpa using hr, by simp [capturesOf]⟩
         · simp at hf
       | cons g rest' => exact ih q caps' f hf
-    have lit : f ∈ dfsVisit rs bt rest (p ++ [fd]) caps →
+    have lit : (fd == starB) = false → f ∈ dfsVisit rs bt rest (p ++ [fd]) caps →
         ∃ ext, globMatches ext (fd :: rest) = true ∧ result rs (p ++ ext) = some f.rule ∧
-          (NoStarField (fd :: rest) → f.caps = caps ++ capturesOf ext (fd :: rest)) := by
-      intro hf
+          f.caps = caps ++ capturesOf ext (fd :: rest) := by
+      intro hne hf
       obtain ⟨ext, h1, h2, h3⟩ := hv _ _ hf
       refine ⟨fd :: ext, by simp [globMatches_cons_cons, h1], by simpa using h2, ?_⟩
-      intro hns
-      have hne : (fd == starB) = false := by simpa using hns.head
-      rw [h3 hns.tail]; simp [capturesOf, hne]
+      rw [h3]; simp [capturesOf, hne]
     have star : f ∈ dfsVisit rs bt rest (p ++ [starB]) (caps ++ [fd]) →
         ∃ ext, globMatches ext (fd :: rest) = true ∧ result rs (p ++ ext) = some f.rule ∧
-          (NoStarField (fd :: rest) → f.caps = caps ++ capturesOf ext (fd :: rest)) := by
+          f.caps = caps ++ capturesOf ext (fd :: rest) := by
       intro hf
       obtain ⟨ext, h1, h2, h3⟩ := hv _ _ hf
       refine ⟨starB :: ext, by simp [globMatches_cons_cons, h1], by simpa using h2, ?_⟩
-      intro hns
-      rw [h3 hns.tail]; simp [capturesOf]
+      rw [h3]; simp [capturesOf]
     rw [dfs_cons] at h
     split at h
     · simp at h
     · split at h
-      · rcases List.mem_append.mp h with h | h
-        · exact lit h
+      · rename_i hokf
+        rw [Bool.and_eq_true] at hokf
+        rcases List.mem_append.mp h with h | h
+        · exact lit (by simpa [bne] using hokf.1) h
         · split at h
           · exact star h
           · simp at h
@@ -170,12 +161,13 @@ theorem dfs_sound (rs : TRules) (bt : Bool) :
 
 /-! ### completeness (backtracking on) -/
 
-/-- With backtracking, every final node whose path matches the remaining fields is reached. -/
+/-- With backtracking, every final node whose path matches the remaining fields is reached, with the
+    captures of its path. -/
 theorem dfs_complete (rs : TRules) :
     ∀ (fields : List Bytes) (p : Pat) (caps : List Bytes) (ext : Pat) (i : Nat),
       fields ≠ [] → globMatches ext fields = true → result rs (p ++ ext) = some i →
       ∃ c, (⟨i, c⟩ : Found) ∈ dfs rs true p caps fields ∧
-        (NoStarField fields → c = caps ++ capturesOf ext fields) := by
+        c = caps ++ capturesOf ext fields := by
   intro fields
   induction fields with
   | nil => intro p caps ext i h; exact absurd rfl h
@@ -194,40 +186,40 @@ theorem dfs_complete (rs : TRules) :
         rw [← hlen]; exact okChild_of_mem hmem
       -- the visit of the child `p ++ [c]` reaches the node
       have hv : ∀ caps', ∃ c', (⟨i, c'⟩ : Found) ∈ dfsVisit rs true rest (p ++ [c]) caps' ∧
-          (NoStarField rest → c' = caps' ++ capturesOf ext' rest) := by
+          c' = caps' ++ capturesOf ext' rest := by
         intro caps'
         have hr' : result rs ((p ++ [c]) ++ ext') = some i := by simpa using hr
         cases rest with
         | nil =>
           cases ext' with
           | nil =>
-            refine ⟨caps', ?_, by intro _; simp [capturesOf]⟩
+            refine ⟨caps', ?_, by simp [capturesOf]⟩
             simp only [List.append_nil] at hr'
             simp [dfsVisit, hr']
           | cons _ _ => simp at hm'
         | cons g rest' => exact ih (p ++ [c]) caps' ext' i (by simp) hm' hr'
       rw [dfs_cons]
       simp only [hch, Bool.not_true, Bool.false_eq_true, if_false, Bool.true_and]
-      by_cases hcf : c = fd
-      · subst hcf
+      cases hcs : (c == starB) with
+      | false =>
+        -- a literal component of the path: the field is that literal (not `*`), the literal child is entered
+        have hcf : c = fd := by simpa [hcs] using hc
+        subst hcf
         obtain ⟨c', h1, h2⟩ := hv caps
         refine ⟨c', ?_, ?_⟩
-        · simp only [hok, if_true]; exact List.mem_append_left _ h1
-        · intro hns
-          have hne : (c == starB) = false := by simpa using hns.head
-          rw [h2 hns.tail]; simp [capturesOf, hne]
-      · have hcs : c = starB := by
-          rcases Bool.or_eq_true _ _ |>.mp hc with h | h
-          · simpa using h
-          · exact absurd (by simpa using h) hcf
-        subst hcs
+        · simp only [bne, hcs, hok, Bool.not_false, Bool.and_self, if_true]
+          exact List.mem_append_left _ h1
+        · rw [h2]; simp [capturesOf, hcs]
+      | true =>
+        -- a wildcard component: the `*` child is entered, after the literal child or instead of it
+        have hcs' : c = starB := by simpa using hcs
+        subst hcs'
         obtain ⟨c', h1, h2⟩ := hv (caps ++ [fd])
         refine ⟨c', ?_, ?_⟩
-        · by_cases hokf : okChild rs p fd rest.length = true
+        · by_cases hokf : (fd != starB && okChild rs p fd rest.length) = true
           · simp only [hokf, hok, if_true]; exact List.mem_append_right _ h1
           · simp only [hokf, hok, if_true]; exact h1
-        · intro hns
-          rw [h2 hns.tail]; simp [capturesOf]
+        · rw [h2]; simp [capturesOf]
 
 /-- completeness of one `visit` (backtracking on) -/
 theorem dfsVisit_complete (rs : TRules) (rest : List Bytes) (q : Pat) (caps' : List Bytes) (ext : Pat) (i : Nat)
